@@ -47,7 +47,7 @@ def client_to_configured_device(ctx):
     A write whose route path the device must refuse must never land (whatever the client did with it); the writes the device must
     accept that precede the first refusal must land.  -> list of problems"""
     import socket, subprocess, sys, time
-    from cpppo.server.enip import client
+    from cpppo.server.enip import client, device
     s = socket.socket(); s.bind(('127.0.0.1', 0)); port = s.getsockname()[1]; s.close()
     proc = subprocess.Popen([sys.executable, '-m', 'cpppo.server.enip', '--no-udp', '-a', '127.0.0.1:%d' % port, '--route-path', '1/0', 'T=DINT[12]', 'U@0x99/1/3=DINT'],
                             stdout=subprocess.DEVNULL, stderr=subprocess.DEVNULL, cwd='/')
@@ -102,6 +102,31 @@ def client_to_configured_device(ctx):
                     if r in good and i < first_bad and now[i] != vals[i]:
                         problems.append(dict(w, problem='write #%d (acceptable route path, before any refusal) did not land' % i))
                         return problems
+        # a connector whose DEFAULT route path was changed (class / instance attribute route_path_default): operations that name no route
+        # path of their own travel with that default - a device configured 1/0 refuses 1/3 and accepts a default of 1/0 or none at all
+        for k, (dflt, acceptable) in enumerate(((None, True), ([{'port': 1, 'link': 3}], False), ('1/0', True), (False, True), ([{'port': 2, 'link': '1.2.3.4'}], False))):
+            val = 9000 + k
+            ops = [dict(path=[{'symbolic': 'T'}, {'element': 11}], elements=1, tag_type=196, data=[val], method='write')]
+            try:
+                conn = client.connector(host='127.0.0.1', port=port, timeout=3)
+                if dflt is not None:
+                    conn.route_path_default = dflt if not isinstance(dflt, str) else device.parse_route_path(dflt)
+                try:
+                    with conn:
+                        list(conn.operate(ops, depth=0, multiple=0, timeout=3))
+                finally:
+                    conn.close()
+            except Exception:
+                pass
+            with client.connector(host='127.0.0.1', port=port, timeout=3) as rd:
+                now = None
+                for _i, _d, _q, _r, sts, v in rd.operate(list(client.parse_operations(['T[11]'])), depth=0, timeout=3):
+                    now = list(v) if v else None
+            w = dict(connector_route_path_default=dflt, value=val, element_after=now)
+            if acceptable and now != [val]:
+                problems.append(dict(w, problem='a write through a connector whose default route path is %r did not land' % (dflt,))); return problems
+            if not acceptable and now == [val]:
+                problems.append(dict(w, problem='a write through a connector whose default route path is %r landed on a device configured 1/0' % (dflt,))); return problems
         # the attribute services too: Set Attribute Single on the scalar attribute @0x99/1/3, one operation per connection, each with its
         # own route path
         from cpppo.server.enip.get_attribute import attribute_operations
@@ -166,10 +191,10 @@ def run(ctx):
     for cfg, rp, q in combos:
         cfg_model = None if cfg is None else ([] if cfg in ('simple-false', []) else cfg)
         cfg_py = None if cfg is None else (False if cfg == 'simple-false' else [seg_py(s) for s in cfg])
-        # every other personality also has a route table - for a hop (9/9) that no request names, so every request stays local and the
+        # every other personality also has a route table - for hops (9/9, and link ranges just above the links that are used) that no request names, so every request stays local and the
         # personality's filter must judge it exactly as without a table
         combo_i = len(cases)
-        U = type('UCMM_verif', (ucmm.UCMM,), dict({'route_path': cfg_py}, **({'route': {'9/9': '127.0.0.1:9'}} if combo_i % 2 else {})))
+        U = type('UCMM_verif', (ucmm.UCMM,), dict({'route_path': cfg_py}, **({'route': {'9/9': '127.0.0.1:9', '1/2-9': '127.0.0.1:9', '2/6-7': '127.0.0.1:9', '3/8-9': '127.0.0.1:9'}} if combo_i % 2 else {})))      # ranges just above links the requests use (1/1, 2/5, 3/7)
         device.lookup_reset(); logix.setup_reset()
         im = L.Impl(488, tags)      # builds tags + default objects (setup() then keeps what exists)
         try:
